@@ -681,7 +681,9 @@ class Prettier:
 		if pattern.comp == Comps.Regexp:
 			return f'/{pattern.expression}/'
 		elif pattern.comp == Comps.Equals:
-			return f'"{pattern.expression}"'
+			# XXX タブ・改行の制御コードをエスケープ表記に復元 @see Pattern.make
+			space_codes = {'\t': '\\t', '\f': '\\f', '\r': '\\r', '\n': '\\n'}
+			return f'"{space_codes.get(pattern.expression, pattern.expression)}"'
 		else:
 			return pattern.expression
 
